@@ -1296,6 +1296,8 @@ def cases(tier, rng, extended=False):
         # the Wiedemann pipeline is modelled (Ymq/Model/Wiedemann.lean): K on for its ops up to a dimension the list-based model handles fast
         if c.op in wied.K_OPS and not c.k and c.o and c.profiles is None and c.args and c.args[0].count(";") < WIED_K_MAX_DIM:
             c.k = True
+        if c.op == "im_ker_trace":
+            c.o = True          # judged by wied.oracle_ker; the model answers through the follow-up im_ker_model
         # the loops of reduce_cols / normalize / the permutation walk do not terminate when their arithmetic is wrong:
         # these requests take milliseconds, a short watchdog keeps a broken build from stalling the whole check
         if c.timeout is None:
@@ -1309,6 +1311,8 @@ def cases(tier, rng, extended=False):
 def followup(case, ans):
     if case.op in bm.OPS:
         return None
+    if case.op == "im_ker_trace":
+        return wied.followup(case, ans)
     """model requests built from the implementation's answer: SmithNormalForm::new / new+reduce with the
     lattice index found by the (unmodelled, floating-point guided) compute_lattice_index as input"""
     if case.op in ("im_echelon", "im_detp") and case.o and ans not in BAD:
@@ -1435,6 +1439,8 @@ def snf_final_check(ans_state, h, want_group, orig_rows=None, orig_gens=None):
 def oracle(case, ans):
     if case.op in bm.OPS:
         return bm.oracle(case, ans)
+    if case.op == "im_ker_trace":
+        return wied.oracle_ker(case, ans)
     op, a = case.op, case.args
     if op in ("im_crt", "im_crt_sparse"):
         res, primes = unlst(a[0]), unlst(a[1])
@@ -2221,7 +2227,8 @@ CLAIM = ("Lean theorems, for all inputs, about executable models of intdense.rs:
          "implementation answer: determinants with sign, dense/sparse agreement, lattice index inside the bracket, diagonal presentation with product = "
          "index and the isomorphism class of the quotient.")
 LEVEL_NOTE = ("Partial by design: the floating-point estimate windows of compute_lattice_index (GramBuilder row filter, log2 estimates) and the "
-              "Wiedemann/Berlekamp-Massey code of intsparse.rs have no Lean model (oracle only); snf_ops_unimodular is proved as _partial for the i128 "
+              "thread-pool variant of detz have no Lean model (oracle only) — Berlekamp-Massey, mulp, _detp4, sequential detz, select_crtprimes and the "
+              "kernel path ker_p256 ARE modelled and proved (Props/C19BM.lean, Props/C19Wied.lean, see the appended CLAIM parts); snf_ops_unimodular is proved as _partial for the i128 "
               "arithmetic path (h < 2^63, one source row): the I256 path and the 8-row block of eliminate_block need the correctness of the reciprocal "
               "reduction modh256, which is compared with the code and oracle-checked but not proved; echelon_det is proved as _partial for a second, "
               "plain-arithmetic sequential model EchP of GFpEchelonBuilder::add/det (partial correctness incl. rejected rows; totality not proved): the "
@@ -2229,7 +2236,7 @@ LEVEL_NOTE = ("Partial by design: the floating-point estimate windows of compute
               "implementation on every echelon request (two K streams); the composition of the operation theorems over the loops of "
               "reduce_rows (which also discards relations and generators) is not proved (K and oracle only); the column phase reduce_cols is composed "
               "(snf_reduce_cols_iso_partial). Integer determinants are not invariants of the "
-              "Smith-form operations because every step reduces modulo h; the proved invariant is the relation module modulo h. Five algorithmic "
+              "Smith-form operations because every step reduces modulo h; the proved invariant is the relation module modulo h. Nine "
               "limitations of the code are listed as known findings (refusals and false zeros, see known_findings.json); 9 defects were repaired by "
               "fix: commits and the models follow the repaired code. Trusted: Lean kernel (+propext, Classical.choice, Quot.sound), the hand-written "
               "models' correspondence to the Rust code (sampled in both profiles, not proved), Python integers (and IEEE doubles for the caller-side Gram "
@@ -2238,6 +2245,8 @@ TECHNIQUE = "Lean 4 proof about a hand model + differential correspondence check
 
 
 # ---- Berlekamp-Massey (props/c19_bm.py): lists and texts merged into this property
+CLAIM = CLAIM + " || Berlekamp-Massey: " + bm.CLAIM + " || Wiedemann: " + getattr(wied, "CLAIM", "see MODELLED")
+HYPOTHESES = list(HYPOTHESES) + list(wied.HYPOTHESES)
 MODELLED = list(MODELLED) + list(bm.MODELLED) + list(wied.MODELLED)
 UNMODELLED = list(UNMODELLED) + list(bm.UNMODELLED) + list(wied.UNMODELLED)
 RULE = RULE + " " + bm.RULE_BM
